@@ -127,6 +127,44 @@ func init() {
 	reg(nd+"IteInt", func(fr *frame, args []value) value {
 		return fr.m.ts.Ite(args[0].(*Term), args[1].(*Term), args[2].(*Term))
 	})
+	reg(nd+"Iff", func(fr *frame, args []value) value { return fr.m.ts.Eq(args[0].(*Term), args[1].(*Term)) })
+	// SameBytes: the two byte strings are the same terms (syntactic identity);
+	// a concrete answer, used by ideal-function models to memoise.
+	reg(nd+"SameBytes", func(fr *frame, args []value) value {
+		a, b := fr.m.byteSeq(args[0]), fr.m.byteSeq(args[1])
+		if len(a) != len(b) {
+			return fr.m.ts.False
+		}
+		for i := range a {
+			if a[i] != b[i] {
+				return fr.m.ts.False
+			}
+		}
+		return fr.m.ts.True
+	})
+	// EqBytes: equality of two byte strings as one formula (no fork).
+	reg(nd+"EqBytes", func(fr *frame, args []value) value {
+		return fr.m.seqEq(fr.m.byteSeq(args[0]), fr.m.byteSeq(args[1]))
+	})
+	// Axiom adds a constraint without a feasibility query; the engine checks
+	// once per path (before reporting) that the path condition is satisfiable.
+	reg(nd+"Axiom", func(fr *frame, args []value) value {
+		m := fr.m
+		c := args[0].(*Term)
+		if c.IsTrue() {
+			return nil
+		}
+		if m.cfg.ReplayVals != nil {
+			return nil
+		}
+		m.pc = append(m.pc, c)
+		m.solver.Assert(c)
+		m.axioms++
+		if m.model != nil && m.ts.Eval(c, m.model) != 1 {
+			m.model = nil
+		}
+		return nil
+	})
 	reg(nd+"Thorough",func(fr *frame, args []value) value { return fr.m.ts.Bool(fr.m.cfg.Thorough) })
 	reg(nd+"RunOthers", func(fr *frame, args []value) value {
 		// let every other thread run until all are blocked or done (their
